@@ -411,6 +411,93 @@ func runE2E(c *harness.Ctx) harness.Result {
 
 // the same command typed several times into one interactive session, with other commands
 // (also failing ones) in between, prints the same bytes every time
+// part bigdot: graphs beyond the default node limit. 130-260 callers reach 1-3 destinations through
+// a hub; some callers also reach a destination through a rarely sampled function that the node
+// cutoff removes, which leaves residual edges whose fate (dropped as redundant or kept) is decided by
+// a search over the destination's ancestors.
+func hubProfile(r *rand.Rand) (*profile.Profile, float64) {
+	p := &profile.Profile{SampleType: []*profile.ValueType{{Type: "samples", Unit: "count"}}, PeriodType: &profile.ValueType{Type: "cpu", Unit: "ns"}, Period: 1}
+	m := &profile.Mapping{ID: 1, Start: 0x1000, Limit: 0x100000, File: "/bin/prog"}
+	p.Mapping = []*profile.Mapping{m}
+	loc := func(name string) *profile.Location {
+		f := &profile.Function{ID: uint64(len(p.Function) + 1), Name: name, SystemName: name, Filename: "x.go"}
+		p.Function = append(p.Function, f)
+		l := &profile.Location{ID: uint64(len(p.Location) + 1), Mapping: m, Address: 0x1000 + uint64(len(p.Location))*16, Line: []profile.Line{{Function: f, Line: 1}}}
+		p.Location = append(p.Location, l)
+		return l
+	}
+	n := 130 + r.Intn(131)
+	var callers, dsts, hubs, mids []*profile.Location
+	for i := 0; i < n; i++ {
+		callers = append(callers, loc(fmt.Sprintf("c%d", i)))
+	}
+	for i, k := 0, 1+r.Intn(3); i < k; i++ {
+		dsts = append(dsts, loc(fmt.Sprintf("dst%d", i)))
+	}
+	for i, k := 0, 1+r.Intn(2); i < k; i++ {
+		hubs = append(hubs, loc(fmt.Sprintf("hub%d", i)))
+	}
+	for i, k := 0, 1+r.Intn(4); i < k; i++ {
+		mids = append(mids, loc(fmt.Sprintf("mid%d", i)))
+	}
+	var total int64
+	add := func(v int64, stack ...*profile.Location) {
+		p.Sample = append(p.Sample, &profile.Sample{Value: []int64{v}, Location: stack})
+		total += v
+	}
+	for _, c := range callers {
+		add(20, dsts[r.Intn(len(dsts))], hubs[r.Intn(len(hubs))], c)
+	}
+	// each rarely sampled function stays below the cutoff: at most 8 in all (the cutoff is 12, everything else has 20 or more)
+	for _, md := range mids {
+		for k, left := 0, int64(5); k < 3 && left > 0; k++ {
+			v := 1 + r.Int63n(left)
+			left -= v
+			add(v, dsts[r.Intn(len(dsts))], md, callers[r.Intn(len(callers))])
+		}
+	}
+	// callers that reach a destination only through a removed function: their residual edge stays
+	for i, k := 0, 1+r.Intn(3); i < k; i++ {
+		solo := loc(fmt.Sprintf("solo%d", i))
+		add(20, solo)
+		add(1, dsts[r.Intn(len(dsts))], mids[i%len(mids)], solo)
+	}
+	r.Shuffle(len(p.Sample), func(i, j int) { p.Sample[i], p.Sample[j] = p.Sample[j], p.Sample[i] })
+	return p, 12.5 / float64(total)
+}
+
+func runBigDot(c *harness.Ctx) harness.Result {
+	r := c.Rng
+	p, nf := hubProfile(r)
+	res := harness.Result{NonTrivial: true, Sig: fmt.Sprintf("hub %d fns %d samples", len(p.Function), len(p.Sample)), Sample: map[string]any{"functions": len(p.Function), "nodefraction": nf}}
+	for _, v := range []struct {
+		name string
+		b    map[string]bool
+		n    int
+	}{{"dot nodecount=0", map[string]bool{"dot": true}, 0}, {"dot nodecount=400", map[string]bool{"dot": true}, 400}, {"dot nodecount=0 call_tree", map[string]bool{"dot": true, "call_tree": true}, 0}} {
+		var first string
+		for rep := 0; rep < 10; rep++ {
+			out, _, rr := drv.Report(map[string]*profile.Profile{"p": p}, []string{"p"}, v.b, nil, map[string]int{"nodecount": v.n}, map[string]float64{"nodefraction": nf, "edgefraction": 0}, nil)
+			if rr.Panic != "" || rr.Err != nil {
+				return harness.Violation("%s: %s %v", v.name, rr.Panic, rr.Err)
+			}
+			c.Stat("big_graph_renderings", 1)
+			if rep == 0 {
+				first = out
+				c.Max("big_graph_nodes", int64(strings.Count(out, "id=\"node")))
+				c.Stat("big_graph_dotted_edges", int64(strings.Count(out, "style=\"dotted\"")))
+				continue
+			}
+			if out != first {
+				res.Verdict = harness.Violated
+				res.Detail = fmt.Sprintf("%s with nodefraction=%v over a graph of %d functions: repetition %d differs from the first rendering\n%s", v.name, nf, len(p.Function), rep, firstDiff([]byte(first), []byte(out)))
+				return res
+			}
+		}
+	}
+	return res
+}
+
 func runSession(c *harness.Ctx) harness.Result {
 	r := c.Rng
 	p := TieProfile(r)
@@ -421,11 +508,52 @@ func runSession(c *harness.Ctx) harness.Result {
 	cmds := []string{"top", "top -cum", "tree", "traces", "tags", "raw", "peek .", "dot", "callgrind", "top 3", "comments", "text f"}
 	between := []string{"list zzznomatch", "peek zzznomatch", "disasm zzznomatch", "weblist zzznomatch", "web", "svg", "top", "tags", "traces", "tree", "dot", "nosuchcommand", "top ("}
 	cmd := cmds[r.Intn(len(cmds))]
-	lines := []string{cmd}
+	// an option set, used by a report and put back to its default between two repetitions
+	excursions := [][2]string{{"source_path=/x/app", "source_path="}, {"source_path=/x/work:/y/app", "source_path="}, {"trim_path=/src", "trim_path="}, {"granularity=lines", "granularity=functions"},
+		{"nodecount=2", "nodecount=-1"}, {"sort=cum", "sort=flat"}, {"divide_by=2", "divide_by=1"}, {"relative_percentages=true", "relative_percentages=false"}, {"focus=f", "focus="},
+		{"call_tree=true", "call_tree=false"}, {"compact_labels=false", "compact_labels=true"}, {"unit=kb", "unit=minimum"}, {"sample_index=0", "sample_index="}, {"noinlines=true", "noinlines=false"}, {"mean=true", "mean=false"}}
+	var lines []string
+	gran := ""
+	if r.Intn(2) == 0 {
+		for _, f := range p.Function {
+			if f.Filename != "" {
+				f.Filename = []string{"/src/work/app/", "/src/app/", "/proc/self/cwd/app/"}[r.Intn(3)] + f.Filename
+			}
+		}
+		buf.Reset()
+		p.WriteUncompressed(&buf)
+		gran = []string{"granularity=lines", "granularity=files", "granularity=filefunctions"}[r.Intn(3)]
+		lines = append(lines, gran)
+	}
+	// a third of the sessions have such an excursion before the command is typed for the first time;
+	// a second fresh session without it then says what the command prints
+	plain := append([]string(nil), lines...)
+	lead := r.Intn(3) == 0
+	if lead {
+		ex := excursions[r.Intn(3)]
+		if r.Intn(2) == 0 {
+			ex = excursions[r.Intn(len(excursions))]
+		}
+		if ex[0] == "granularity=lines" && gran != "" {
+			ex[1] = gran
+		}
+		lines = append(lines, ex[0], []string{"top", "tree", "dot", "traces", "list ."}[r.Intn(5)], ex[1])
+	}
+	plain = append(plain, cmd)
+	reps := map[int]bool{len(lines): true}
+	lines = append(lines, cmd)
 	for k := 0; k < 3; k++ {
+		if r.Intn(2) == 0 {
+			ex := excursions[r.Intn(len(excursions))]
+			if ex[0] == "granularity=lines" && gran != "" {
+				ex[1] = gran
+			}
+			lines = append(lines, ex[0], []string{"top", "tree", "dot", "traces", "list ."}[r.Intn(5)], ex[1])
+		}
 		for j, n := 0, 1+r.Intn(2); j < n; j++ {
 			lines = append(lines, between[r.Intn(len(between))])
 		}
+		reps[len(lines)] = true
 		lines = append(lines, cmd)
 	}
 	res := harness.Result{NonTrivial: true, Sig: fmt.Sprintf("session %q %s", lines, gen.Shape(p)), Sample: map[string]any{"lines": lines}}
@@ -457,8 +585,16 @@ func runSession(c *harness.Ctx) harness.Result {
 		return sb.String()
 	}
 	first := ""
-	for i, l := range lines {
-		if l != cmd {
+	if lead {
+		pr, err := sess.Run(sess.Spec{Profile: buf.Bytes(), Mode: "interactive", Lines: plain, Dir: c.Tmp + "/p"}, 2*time.Minute)
+		if err != nil || pr.Panic != "" || len(pr.Segments) < len(plain) {
+			return harness.Result{Verdict: harness.Inconclusive, Detail: fmt.Sprintf("plain session: %v %s", err, pr.Panic)}
+		}
+		first = text(pr.Segments[len(plain)-1])
+		c.Stat("sessions_with_leading_excursion", 1)
+	}
+	for i := range lines {
+		if !reps[i] {
 			continue
 		}
 		t := text(sr.Segments[i])
@@ -467,7 +603,7 @@ func runSession(c *harness.Ctx) harness.Result {
 			first = t
 		} else if t != first {
 			res.Verdict = harness.Violated
-			res.Detail = fmt.Sprintf("%q typed again as line %d of the session %q prints something else than the first time\n%s", cmd, i, lines[:i+1], firstDiff([]byte(first), []byte(t)))
+			res.Detail = fmt.Sprintf("%q typed again as line %d of the session %q prints something else than the first time (or, as the first repetition after a leading option excursion, than in a fresh session without the excursion)\n%s", cmd, i, lines[:i+1], firstDiff([]byte(first), []byte(t)))
 			return res
 		}
 	}
@@ -571,7 +707,7 @@ func init() {
 	harness.Register(&harness.Check{
 		ID:          "C08",
 		Level:       "exploration",
-		Rule:        "part orderlaws: tie-rich element sets of 3..6 distinct elements (values in {0,+-1,+-2,+-5}, equal names at different addresses/files/binaries) - EVERY permutation (6..720) is sorted by SortTags (flat, cum) and Nodes.Sort (7 orders incl. entropy with random edges); EdgeMap.Sort is repeated 60x (its input order is a map); the result sequence must be unique (sort.Sort is an insertion sort at these sizes, so any pair the comparator leaves unordered yields two results). part e2e: tie-class profiles (values -2..2, +/- cancelling diff shapes, equal names in several files, duplicate label values, comments and header fields, twin locations at one address with different line information) x 32 format/option combinations (top, tree, peek, dot, dot+call_tree, callgrind(+call_tree), tags, traces, raw, proto (gunzipped), topproto, tagroot/tagleaf; with and without nodecount; list (source files absent: routine headers and per-file errors), disasm through a fake object tool whose instructions carry no line information; proto/raw under show_from, focus+hide, prune_from, tagfocus+taghide; proto/raw/top with -symbolize=local through the real symbolizer over a fake object tool that names every address) rendered 8x in one process (fresh map seeds each time) plus web /top /flamegraph /peek /source on two servers; all byte strings (report bytes plus the messages printed for the user, e.g. unit warnings) equal. part xproc: the same renderings in 3 fresh processes. part session: one command typed four times into a fresh interactive session with 1-2 other commands (succeeding and failing) in between; all four answers equal. part fetchorder: 2-6 sources differing in main binary and comments fetched through the gated fetcher under 4 forced completion orders x 6 formats; bytes must be equal. non-trivial = every case; distinct = element set / profile shape",
+		Rule:        "part orderlaws: tie-rich element sets of 3..6 distinct elements (values in {0,+-1,+-2,+-5}, equal names at different addresses/files/binaries) - EVERY permutation (6..720) is sorted by SortTags (flat, cum) and Nodes.Sort (7 orders incl. entropy with random edges); EdgeMap.Sort is repeated 60x (its input order is a map); the result sequence must be unique (sort.Sort is an insertion sort at these sizes, so any pair the comparator leaves unordered yields two results). part e2e: tie-class profiles (values -2..2, +/- cancelling diff shapes, equal names in several files, duplicate label values, comments and header fields, twin locations at one address with different line information) x 32 format/option combinations (top, tree, peek, dot, dot+call_tree, callgrind(+call_tree), tags, traces, raw, proto (gunzipped), topproto, tagroot/tagleaf; with and without nodecount; list (source files absent: routine headers and per-file errors), disasm through a fake object tool whose instructions carry no line information; proto/raw under show_from, focus+hide, prune_from, tagfocus+taghide; proto/raw/top with -symbolize=local through the real symbolizer over a fake object tool that names every address) rendered 8x in one process (fresh map seeds each time) plus web /top /flamegraph /peek /source on two servers; all byte strings (report bytes plus the messages printed for the user, e.g. unit warnings) equal. part xproc: the same renderings in 3 fresh processes. part session: one command typed four times into a fresh interactive session with 1-2 other commands (succeeding and failing) in between, and in half of the gaps an option (source_path, trim_path, granularity, nodecount, sort, divide_by, focus, unit, ...) that is set, used by a report and put back to its default; half of the sessions run at a file-bearing granularity over file names that trim_path/source_path rewrite; a third of the sessions have such an excursion before the first repetition, whose answer is then compared with a second fresh session without it; all four answers equal. part bigdot: graphs of 130-260 callers reaching 1-3 destinations through 1-2 hubs, some also through rarely sampled functions that a node cutoff removes (residual edges whose redundancy is decided by a search over the destination's many ancestors), rendered as dot (nodecount 0, 400; call_tree) 10x each; bytes equal. part fetchorder: 2-6 sources differing in main binary and comments fetched through the gated fetcher under 4 forced completion orders x 6 formats; bytes must be equal. non-trivial = every case; distinct = element set / profile shape",
 		Assumptions: []string{"elements of one sort call have distinct identities (names of tags within a node, NodeInfo of nodes in a graph), as in pprof's own data structures", "schedule coverage = map-iteration seeds of repeated runs and fresh processes, plus forced fetch completion orders (more of them in C16)"},
 		Parts: []harness.Part{
 			{Name: "orderlaws", Quick: 3000, Thor: 100000, Run: runOrderLaws},
@@ -579,6 +715,7 @@ func init() {
 			{Name: "xproc", Quick: 16, Thor: 1500, Run: runXProc},
 			{Name: "session", Quick: 150, Thor: 5000, Run: runSession},
 			{Name: "fetchorder", Quick: 100, Thor: 5000, Run: runFetchOrder},
+			{Name: "bigdot", Quick: 60, Thor: 3000, Run: runBigDot},
 		},
 		MinNonTrivial: func(string) int { return 300 },
 	})
